@@ -1603,7 +1603,7 @@ def _spawn(self, st, fn, args, what):
     self.funcs_encoded.add(fn.name)
     tid = len(ts) + 1
     ts.append(dict(tid=tid, frames=[fr], status="run", wait=None, phase=0, skip=False, what=what))
-    self.assumptions.add("threads: sequentially consistent interleaving of whole instructions; context switches at blocking calls and yields; explored preemptions (bounded as stated "
+    self.assumptions.add("threads: sequentially consistent interleaving of whole instructions; context switches at blocking calls and yields go round-robin (fair, not explored); explored preemptions (bounded as stated "
                          "per entry) are placed before synchronisation calls, fences, atomic/volatile stores and read-modify-writes (not before plain atomic/volatile loads), each program location at most 4 times per path; time-sliced for liveness")
     return tid
 
@@ -1645,8 +1645,8 @@ def _pick_next(self, st, why):
         return
     # round-robin order starting after the current thread
     order = sorted(others, key=lambda i: (i - st.cur) % len(st.threads))
-    if self.explore and len(order) > 1:
-        raise Fork([(z3.BoolVal(True), None, st.model, ("switch", j)) for j in order])
+    # round-robin (fair): which thread follows a blocked / finished / yielding one is not explored - an unfair choice
+    # repeated at every yield would starve a thread and refute every bounded-wait ("eventually") obligation
     self.switch_to(st, order[0])
 
 
@@ -1685,8 +1685,6 @@ def _sync_point(self, st, voluntary=False, is_load=False):
     order = sorted(others, key=lambda i: (i - st.cur) % len(st.threads))
     if voluntary or st.slice > self.time_slice:
         me["skip"] = True
-        if self.explore and len(order) > 1:
-            raise Fork([(z3.BoolVal(True), None, st.model, ("switch", j)) for j in order])
         self.switch_to(st, order[0])
         raise Resched()
     if self.explore and st.preempt_left > 0 and not is_load:
